@@ -330,6 +330,7 @@ type Sim struct {
 	OnMsg    func(s *Sim, t *Task, m Msg)
 
 	wdMu       sync.Mutex
+	Stall      time.Duration // longest time one step may take before the watchdog calls it a stall (0: StallTimeout); a workload with very large inputs raises it
 	wdDeadline time.Time
 	wdStop     chan struct{}
 }
@@ -399,7 +400,11 @@ func (s *Sim) watchdog() {
 
 func (s *Sim) recv() Msg {
 	s.wdMu.Lock()
-	s.wdDeadline = time.Now().Add(StallTimeout)
+	st := s.Stall
+	if st == 0 {
+		st = StallTimeout
+	}
+	s.wdDeadline = time.Now().Add(st)
 	s.wdMu.Unlock()
 	var b [msgSize]byte
 	rawRead(s.repR, b[:])
